@@ -265,7 +265,7 @@ func genScenario(e *Env, i int) cliScenario {
 	}
 	s.Form = "gen ./..."
 	if s.Opts.key() == "||" {
-		s.Form = []string{"gen ./...", "wire ./...", "wire"}[(i/7)%3]
+		s.Form = []string{"gen ./...", "wire ./...", "wire", "gen pkgs", "wire pkgs"}[(i/7)%5]
 	}
 	return s
 }
@@ -346,6 +346,14 @@ func runCLI(e *Env, rep *Report, rc *refCache, s cliScenario, cmd string, mu *sy
 		wd = filepath.Join(root, s.Pkgs[0].P.ID, "app")
 	case cmd == "gen" && s.Form == "wire ./...":
 		args = []string{"./..."}
+	case cmd == "gen" && (s.Form == "gen pkgs" || s.Form == "wire pkgs"):
+		// every package named explicitly, in scenario order
+		if s.Form == "gen pkgs" {
+			args = []string{"gen"}
+		}
+		for _, p := range s.Pkgs {
+			args = append(args, "./"+p.P.ID+"/app")
+		}
 	default:
 		args = append([]string{cmd}, s.Opts.args(cmd, header)...)
 		args = append(args, "./...")
